@@ -39,6 +39,10 @@ enum Field {
     SizedArray(usize),
     /// flag byte + U16BE field present iff flag != 0 (2 nodes)
     SkipPair(bool),
+    /// flag byte, an unrelated u8, then the U16BE field present iff flag != 0 (3 nodes): the target is not adjacent
+    SkipGap(bool),
+    /// flagA, flagB, a (U16BE, present iff flagA != 0), b (u8, present iff flagB != 0) (4 nodes): two skips pending at once
+    SkipTwo(bool, bool),
     /// trailing optional U16LE, present or absent (last only)
     OptU16(bool),
     /// trailing byte block reading to the end (last only)
@@ -50,7 +54,8 @@ enum Field {
 impl Field {
     fn nodes(&self) -> usize {
         match self {
-            Field::TrameU16U8 | Field::Nested => 3,
+            Field::SkipTwo(..) => 4,
+            Field::TrameU16U8 | Field::Nested | Field::SkipGap(_) => 3,
             Field::SizedBytes(_) | Field::SizedArray(_) | Field::SkipPair(_) => 2,
             _ => 1,
         }
@@ -81,6 +86,12 @@ fn field_menu() -> Vec<Field> {
         Field::SizedArray(2),
         Field::SkipPair(true),
         Field::SkipPair(false),
+        Field::SkipGap(true),
+        Field::SkipGap(false),
+        Field::SkipTwo(true, true),
+        Field::SkipTwo(true, false),
+        Field::SkipTwo(false, true),
+        Field::SkipTwo(false, false),
         Field::OptU16(true),
         Field::OptU16(false),
         Field::Rest(0),
@@ -257,6 +268,55 @@ fn build(shape: &[Field], variant: usize) -> Built {
                 if *present {
                     w.u16be(v);
                     leaves.push(Leaf::H(v));
+                }
+            }
+            Field::SkipGap(present) => {
+                let flag: u8 = if *present { 1 } else { 0 };
+                let g = nx8();
+                let v = nx16();
+                let gap = format!("f{}b", i);
+                let target = format!("f{}c", i);
+                let filt = |t: String| move |x: &u8| if *x == 0 { MessageOption::SkipField(t.clone()) } else { MessageOption::None };
+                msg.insert(name.clone(), Box::new(DynOption::new(flag, filt(target.clone()))));
+                msg.insert(gap.clone(), Box::new(g));
+                msg.insert(target.clone(), Box::new(U16::BE(v)));
+                empty.insert(name, Box::new(DynOption::new(0u8, filt(target.clone()))));
+                empty.insert(gap, Box::new(0u8));
+                empty.insert(target, Box::new(U16::BE(0)));
+                w.u8(flag).u8(g);
+                leaves.push(Leaf::B(flag));
+                leaves.push(Leaf::B(g));
+                if *present {
+                    w.u16be(v);
+                    leaves.push(Leaf::H(v));
+                }
+            }
+            Field::SkipTwo(pa, pb) => {
+                let (fa, fb): (u8, u8) = (if *pa { 1 } else { 0 }, if *pb { 1 } else { 0 });
+                let va = nx16();
+                let vb = nx8();
+                let nb = format!("f{}b", i);
+                let ta = format!("f{}c", i);
+                let tb = format!("f{}d", i);
+                let filt = |t: String| move |x: &u8| if *x == 0 { MessageOption::SkipField(t.clone()) } else { MessageOption::None };
+                msg.insert(name.clone(), Box::new(DynOption::new(fa, filt(ta.clone()))));
+                msg.insert(nb.clone(), Box::new(DynOption::new(fb, filt(tb.clone()))));
+                msg.insert(ta.clone(), Box::new(U16::BE(va)));
+                msg.insert(tb.clone(), Box::new(vb));
+                empty.insert(name, Box::new(DynOption::new(0u8, filt(ta.clone()))));
+                empty.insert(nb, Box::new(DynOption::new(0u8, filt(tb.clone()))));
+                empty.insert(ta, Box::new(U16::BE(0)));
+                empty.insert(tb, Box::new(0u8));
+                w.u8(fa).u8(fb);
+                leaves.push(Leaf::B(fa));
+                leaves.push(Leaf::B(fb));
+                if *pa {
+                    w.u16be(va);
+                    leaves.push(Leaf::H(va));
+                }
+                if *pb {
+                    w.u8(vb);
+                    leaves.push(Leaf::B(vb));
                 }
             }
             Field::OptU16(present) => {
@@ -524,7 +584,7 @@ impl Prop for C18 {
         json!({"idx": idx, "case": self.cases[idx as usize]})
     }
     fn rule(&self) -> String {
-        "cases: [model] every message shape of <=4 nodes (<=5 thorough) over {u8, U16/U32 LE/BE, fixed byte block, Check, Trame, nested Component, size-dependent byte block and array (DynOption Size), skippable field (DynOption SkipField), trailing Option present/absent, trailing rest-of-input block, trailing array} x 2 (5) value variants from {0,1,7F,80,FF,...}: length()==bytes written==reference bytes, read into an empty same-shape message reproduces every leaf and consumes exactly; [per] every length 0..0x7FFF, integers (all of u16, u32 boundaries; all 2^32 in thorough), integer16 (value,minimum) boundary pairs and whole rows, every nibble-valid 6-arc OID over {0,1,15,16,127,128,255}, octet strings at every length boundary, numeric strings; [asn1] INTEGER/ENUMERATED/OCTET STRING boundaries and the tagged shapes of MCS/CredSSP against an independent DER codec; [gcc] conference create request for block sizes across the PER length boundaries, every response of the reference encoder over versions x optional SC_CORE fields x 0..31 channels x 6 block orders x unknown block x node ids. Non-trivial: every case except single-leaf model shapes.".into()
+        "cases: [model] every message shape of <=4 nodes (<=5 thorough) over {u8, U16/U32 LE/BE, fixed byte block, Check, Trame, nested Component, size-dependent byte block and array (DynOption Size), skippable field (DynOption SkipField: adjacent target, distant target, two skips pending at once), trailing Option present/absent, trailing rest-of-input block, trailing array} x 2 (5) value variants from {0,1,7F,80,FF,...}: length()==bytes written==reference bytes, read into an empty same-shape message reproduces every leaf and consumes exactly; [per] every length 0..0x7FFF, integers (all of u16, u32 boundaries; all 2^32 in thorough), integer16 (value,minimum) boundary pairs and whole rows, every nibble-valid 6-arc OID over {0,1,15,16,127,128,255}, octet strings at every length boundary, numeric strings; [asn1] INTEGER/ENUMERATED/OCTET STRING boundaries and the tagged shapes of MCS/CredSSP against an independent DER codec; [gcc] conference create request for block sizes across the PER length boundaries, every response of the reference encoder over versions x optional SC_CORE fields x 0..31 channels x 6 block orders x unknown block x node ids. Non-trivial: every case except single-leaf model shapes.".into()
     }
     fn assumptions(&self) -> Vec<String> {
         vec![
